@@ -639,6 +639,7 @@ type GuardDecl struct {
 	Mutex    string
 	Fields   map[string]bool
 	Contents map[string]bool // fields whose map contents (not the field itself) are guarded
+	AddOnly  map[string]bool // guarded-contents fields whose maps only ever gain entries (no entry replaced or removed)
 	Pkg      string
 }
 
@@ -898,6 +899,30 @@ func (cs *ContractSet) ParseContractText(pkgPath, file, text string) error {
 			}
 			for _, f := range ws[2:] {
 				g.Contents[f] = true
+			}
+			cur = nil
+			curLoop = nil
+		case "add-only":
+			// add-only <Type> <field> ... : the maps held by these guarded-contents fields only ever
+			// gain entries. Guarantee: every update of such a map is an obligation (the key is absent
+			// or already maps to the value stored; no delete). Rely (units with `opt interference
+			// yes`): acquiring the mutex replaces the map contents by an arbitrary extension.
+			ws := strings.Fields(rest)
+			if len(ws) < 2 {
+				return fmt.Errorf("%s:%d: add-only wants: Type field...", file, ln+1)
+			}
+			g := cs.Guards[pkgPath+"."+ws[0]]
+			if g == nil || g.Contents == nil {
+				return fmt.Errorf("%s:%d: add-only: %s has no guarded-contents declaration before this line", file, ln+1, ws[0])
+			}
+			if g.AddOnly == nil {
+				g.AddOnly = map[string]bool{}
+			}
+			for _, f := range ws[1:] {
+				if !g.Contents[f] {
+					return fmt.Errorf("%s:%d: add-only: %s.%s is not a guarded-contents field", file, ln+1, ws[0], f)
+				}
+				g.AddOnly[f] = true
 			}
 			cur = nil
 			curLoop = nil
